@@ -76,6 +76,15 @@ CHECKS["C04"] = dict(
     note=E2NOTE,
 )
 
+CHECKS["C12"] = dict(
+    engine=E2, category="model_checking", design="§3 C12",
+    technique="symbolic execution of blackbird.loads from an arbitrary (havoc) pre-state of the process-wide tables vs from empty tables; z3 decides outcome inequality; two-load history replay",
+    text="One inductive step instead of call histories: _VAR/_PARAMS are havoc tables (any name may be left behind with a symbolic value of forked type until "
+         "the code clears them); the outcome of each skeleton script on every such path is compared with its outcome from empty tables by z3; a differing "
+         "pre-state is replayed as a real failed-load-then-load history. Plus an identity walk for shared mutable state and an AST scan for other module state.",
+    note=E2NOTE,
+)
+
 NOT_YET = "check not built yet in this round (see DESIGN.md §3 for the plan); not claimed"
 
 
